@@ -207,6 +207,22 @@ pub fn drive_modes(t: &mut Tracer, tier: &str, seed: u64) {
             }
         }
     }
+    // LARGE inputs (a mode that processes big buffers in chunks, halves or threads has its seam there): lengths around 2^16 and beyond, odd and
+    // even, block-aligned and not, all four modes, both directions
+    {
+        let lens: Vec<usize> = if thorough { vec![65535, 65536, 65537, 65538, 65553, 100001, 131072, 131075] } else { vec![65538, 65553] };
+        for (i, len) in lens.iter().enumerate() {
+            let gg = Gen::new("mix", rng.below(1 << 20));
+            let d = gg.msg(*len);
+            for (j, mode) in modes.iter().enumerate() {
+                if !thorough && (i + j) % 2 == 1 && *mode != "ctr" { continue; }
+                let (key, iv, s) = (rng.bytes(16), rng.bytes(16), sess());
+                if let Some(ct) = mode_event(t, &s, mode, true, &key, &iv, Some(&gg), &d) {
+                    mode_event(t, &s, mode, false, &key, &iv, None, &ct);
+                }
+            }
+        }
+    }
     // OpenSSL-made corpus (CBC/CFB/OFB/CTR): both directions
     let corpus = concat!(env!("CARGO_MANIFEST_DIR"), "/../corpus/sm4_openssl.ndjson");
     if let Ok(text) = std::fs::read_to_string(corpus) {
